@@ -59,9 +59,19 @@ class World:
     def exec_call(self, store, op):
         k = op["op"]
         if k == "store":
-            return call(store.store_object, op.get("pid"), self.cpaths[op["c"]])
+            kw = {}
+            if op.get("cks") == "wrong":
+                true = hashlib.sha256(self.contents[op["c"]]).hexdigest()
+                kw.update(checksum=("0" if true[0] != "0" else "1") + true[1:], checksum_algorithm=op.get("cks_algo", "sha256"))
+            if op.get("size") == "wrong":
+                kw.update(expected_object_size=len(self.contents[op["c"]]) + 1)
+            if op.get("add"):
+                kw.update(additional_algorithm=op["add"])
+            return call(store.store_object, op.get("pid"), self.cpaths[op["c"]], **kw)
         if k == "tag":
             cid = op["cid"]["raw"] if "raw" in op["cid"] else self.cfg.digest(self.contents[op["cid"]["of"]])
+            if op["cid"].get("upper"):
+                cid = cid.upper()
             return call(store.tag_object, op["pid"], cid)
         if k == "delete":
             return call(store.delete_object, op["pid"])
@@ -80,6 +90,8 @@ class World:
                 else call(store.delete_metadata, op["pid"])
         if k == "retrieve":
             return common.retrieve_bytes(store, op["pid"])
+        if k == "hexd":
+            return call(store.get_hex_digest, op["pid"], op["algo"])
         raise ValueError(k)
 
     def final_state(self, d):
@@ -110,21 +122,27 @@ class World:
 
 class Execution:
     __slots__ = ("outcomes", "raw", "alpha", "deadlock", "steps", "waited", "trace", "dir", "store",
-                 "locks", "used_preemptions", "total_steps", "log")
+                 "locks", "used_preemptions", "total_steps", "log", "stores")
 
 
-def run_program(world, calls, order, preemptions, mp_mode=False, keep_dir=False, on=None):
+def run_program(world, calls, order, preemptions, mp_mode=False, keep_dir=False, on=None, read_boundaries=False,
+                instances=None):
     """Run the calls (one thread each) on a fresh copy of the start state under the given schedule
-    (or, with on=(directory, store), on an existing store instance)."""
+    (or, with on=(directory, store), on an existing store instance).  instances=[i, ...]: call n goes through
+    store instance i (several FileHashStore objects opened on the same directory in this process)."""
     fsi.install()
     if on is not None:
         d, store = on
     else:
         d = world.fresh_copy()
         store = sched.make_owned_store(d, world.cfg, mp_mode)
+    stores = [store]
+    if instances:
+        stores += [sched.make_owned_store(d, world.cfg, mp_mode) for _ in range(max(instances))]
     s = sched.Sched(d)
-    for op in calls:
-        s.add(lambda op=op: world.exec_call(store, op))
+    s.ctx.read_boundaries = read_boundaries
+    for n, op in enumerate(calls):
+        s.add(lambda op=op, st=stores[instances[n] if instances else 0]: world.exec_call(st, op))
     ch = sched.preemption_chooser(order, preemptions)
     ex = Execution()
     ex.deadlock = None
@@ -143,7 +161,10 @@ def run_program(world, calls, order, preemptions, mp_mode=False, keep_dir=False,
     ex.used_preemptions = ch.state["used"]
     ex.total_steps = s.total_steps
     ex.locks = sched.locks_left(store)
-    ex.dir, ex.store = d, store
+    for n, st in enumerate(stores[1:], 1):
+        for k, v in sched.locks_left(st).items():
+            ex.locks[f"instance{n}.{k}"] = v
+    ex.dir, ex.store, ex.stores = d, store, stores
     if not keep_dir:
         shutil.rmtree(d, ignore_errors=True)
         ex.dir = None
@@ -293,9 +314,10 @@ def op_pattern(op, world):
     """Call pattern with identifiers abstracted (for signatures / distinct keys)."""
     k = op["op"]
     if k == "store":
-        return f"store({'pid' if op.get('pid') else 'None'},c{op['c']})"
+        odd = "".join(f",{a}!" for a in ("cks", "size") if op.get(a) == "wrong") + (",add" if op.get("add") else "")
+        return f"store({'pid' if op.get('pid') else 'None'},c{op['c']}{odd})"
     if k == "tag":
-        return f"tag(c{op['cid'].get('of', 'never')})"
+        return f"tag(c{op['cid'].get('of', 'never')}{'^' if op['cid'].get('upper') else ''})"
     if k == "dii":
         return f"dii(c{op['c']},{op.get('cks', 'right')})"
     if k in ("smeta", "rmeta", "dmeta"):
@@ -304,7 +326,7 @@ def op_pattern(op, world):
 
 
 def single_preemption_schedules(world, calls, mp_mode=False, max_preempt=1, limit=None, firsts=(0, 1),
-                                i_mod=(1, 0)):
+                                i_mod=(1, 0), **rp):
     """Enumerate schedules with <= max_preempt preemptions for a 2-thread program:
     yields (order, preemptions, Execution)."""
     n = len(calls)
@@ -313,7 +335,7 @@ def single_preemption_schedules(world, calls, mp_mode=False, max_preempt=1, limi
     for first in firsts:
         order = [first, 1 - first]
         if k == 0:
-            ex0 = run_program(world, calls, order, [], mp_mode)
+            ex0 = run_program(world, calls, order, [], mp_mode, **rp)
             yield order, [], ex0
         if max_preempt < 1:
             continue
@@ -322,7 +344,7 @@ def single_preemption_schedules(world, calls, mp_mode=False, max_preempt=1, limi
             i += 1
             if limit and i > limit:
                 break
-            ex = run_program(world, calls, order, [(i, 0)], mp_mode)
+            ex = run_program(world, calls, order, [(i, 0)], mp_mode, **rp)
             if ex.used_preemptions == 0:
                 break
             if i % m != k:
@@ -331,7 +353,7 @@ def single_preemption_schedules(world, calls, mp_mode=False, max_preempt=1, limi
             if max_preempt >= 2:
                 j = 1
                 while True:
-                    ex2 = run_program(world, calls, order, [(i, 0), (j, 0)], mp_mode)
+                    ex2 = run_program(world, calls, order, [(i, 0), (j, 0)], mp_mode, **rp)
                     if ex2.used_preemptions < 2:
                         break
                     yield order, [(i, 0), (j, 0)], ex2
